@@ -152,10 +152,16 @@ package consul
 //@   // accepted means: fabio's parser takes it, it is exactly ONE 'route add' definition, and a table can be built from it
 //@   ensures result == nil ==> accepts(cmd) && singleAdd(cmd) && tableAccepts(cmd)
 //@
+//@ // what follows the tag prefix, without surrounding blanks
+//@ spec fun tagRest(s string, prefix string) string = trimSpace(trimSpace(s)[len(prefix):])
+//@
 //@ func parseURLPrefixTag
-//@   props C14
+//@   props C13 C14
 //@   assigns ioWrites, lastWrite
 //@   ensures nopanic
+//@   // C13: the option words (everything after the first blank) are handed on verbatim - in particular nothing expands
+//@   // the $path and $host of a redirect=<code>,<url> template, which belong to the request, not to the registration
+//@   ensures @C13 ok ==> opts == (indexByte(tagRest(s, prefix), ' ') >= 0 ? tagRest(s, prefix)[indexByte(tagRest(s, prefix), ' ')+1:] : "")
 //@
 //@ func parseURLPrefixTag$1
 //@   props C14
